@@ -4,6 +4,7 @@ import (
 	"fmt"
 	"os"
 	"strings"
+	"time"
 
 	"github.com/skycoin/skycoin/src/cipher"
 	"github.com/skycoin/skycoin/src/coin"
@@ -243,7 +244,15 @@ func (h *H) stepPublish() {
 	h.log(fmt.Sprintf("publish when=%d pool=%d eligible=%d", when, len(poolBefore), len(exp.order)))
 	headBefore := pm.M.Head()
 	synced := h.sameHead()
-	sb, err := pm.N.V.VerifCreateAndExecuteBlock(when)
+	var sb coin.SignedBlock
+	var err error
+	if h.realClock {
+		// the production entry point (block time = the machine's clock)
+		sb, err = pm.N.V.CreateAndExecuteBlock()
+		h.R.Count("publish.real-entry-point", 1)
+	} else {
+		sb, err = pm.N.V.VerifCreateAndExecuteBlock(when)
+	}
 	if err != nil {
 		h.R.Count("publish.none", 1)
 		if len(exp.order) > 0 {
@@ -509,4 +518,50 @@ func (h *H) stepReopen(m *Mon) {
 func fileExists(p string) bool {
 	_, err := os.Stat(p)
 	return err == nil
+}
+
+// stepWrongKeyPublish: the publisher's own create-and-append entry point (the production one)
+// with a signing key that is not the configured publisher key. The block it makes carries a
+// signature that does not verify against the publisher key, so it must not be appended (C04).
+func (h *H) stepWrongKeyPublish() {
+	pm := h.Pub
+	exp := h.expectPublish(pm.M)
+	if len(exp.order) == 0 || uint64(time.Now().Unix()) <= pm.M.HeadTime() {
+		return
+	}
+	h.log("publish with a foreign signing key")
+	wrong := h.Chain.Keys[h.Rng.Intn(len(h.Chain.Keys))].Sec
+	before := pm.N.Dump()
+	h.swapLock()
+	orig := pm.N.V.Config.BlockchainSeckey
+	pm.N.V.Config.BlockchainSeckey = wrong
+	h.swapUnlock()
+	sb, err := pm.N.V.CreateAndExecuteBlock()
+	h.swapLock()
+	pm.N.V.Config.BlockchainSeckey = orig
+	h.swapUnlock()
+	h.R.Count("publish.wrong-key.offers", 1)
+	changed := before.Diff(pm.N.Dump())
+	if err == nil || len(changed) > 0 {
+		h.Viol("C04", "block-signed-by-other-key-appended", map[string]string{"node": "pub", "entry": "CreateAndExecuteBlock", "err": fmt.Sprint(err), "buckets": strings.Join(changed, ",")}, sb)
+		if err == nil {
+			// keep the shadow ledger in step with what the node did
+			pm.M.ApplyBlock(sb)
+			h.diverged = true
+		}
+		return
+	}
+	h.R.Count("publish.wrong-key.refused", 1)
+}
+
+// finalRealPublish ends a history with one block made through the production entry point
+func (h *H) finalRealPublish() {
+	if uint64(time.Now().Unix()) <= h.Pub.M.HeadTime() || uint64(time.Now().Unix()) <= h.Fol.M.HeadTime() {
+		return
+	}
+	h.stepInject(h.Pub, false)
+	h.catchUp()
+	h.realClock = true
+	h.stepPublish()
+	h.realClock = false
 }
